@@ -410,6 +410,18 @@ where
     replica.info.subscribe(sender)
 }
 
+/// Set the content-status callback of a replica handle obtained from `Store::open_replica`
+/// (what the store actor does for the replicas it opens).
+pub fn replica_set_content_status_callback<I>(
+    replica: &mut Replica<'_, I>,
+    cb: crate::ContentStatusCallback,
+) -> bool
+where
+    I: std::ops::Deref<Target = ReplicaInfo> + std::ops::DerefMut,
+{
+    replica.info.set_content_status_callback(cb)
+}
+
 /// The entries (with the sender's content status) carried by a reconciliation message, in the
 /// order in which the receiver applies them.
 pub fn message_values(message: &ProtocolMessage) -> Vec<(SignedEntry, ContentStatus)> {
